@@ -331,6 +331,7 @@ def _case(draw, tier):
     net = draw(netgen.network(f))
     fam = draw(st.sampled_from(['US', 'metric']))
     o = net['opts']
+    ex_pre = []
     if o['duration'] // o['hyd'] > MAX_STEPS.get(tier, 96):
         o['duration'] = MAX_STEPS.get(tier, 96) * o['hyd']
     if draw(st.integers(0, 4)) != 0:
@@ -339,9 +340,12 @@ def _case(draw, tier):
         o['pat'] = o['hyd'] * draw(st.sampled_from([1, 1, 2, 3]))
         o['pattern_start'] -= o['pattern_start'] % o['hyd']
     else:
-        # EPANET finds the next pattern change as n*Pstep - Htime (PATTERN START left out): only whole pattern
-        # steps of offset keep EPANET itself exact
-        o['pattern_start'] -= o['pattern_start'] % o['pat']
+        # EPANET finds the next pattern change as n*Pstep - Htime with n = (Htime + Pstart)/Pstep + 1, i.e. PATTERN
+        # START is left out of the subtraction: with any offset EPANET itself runs past the pattern changes, so these
+        # cases keep PATTERN START 0
+        if o['pattern_start']:
+            ex_pre.append('excl:pattern_start_with_pattern_change_inside_hyd_step')
+        o['pattern_start'] = 0
     if draw(st.integers(0, 3)) != 0:
         o['rep'] = o['hyd']
     if draw(st.integers(0, 3)) != 0:
@@ -361,7 +365,7 @@ def _case(draw, tier):
     ut = draw(st.sampled_from(pool))
     controls, rules, ex2 = draw(_drivers(net))
     return {'net': net, 'u1': u1, 'u2': u2, 'ut': ut, 'style': draw(st.integers(0, 1)), 'controls': controls,
-            'rules': rules, 'run_w': draw(st.integers(0, 99)) < W_SHARE.get(tier, 100), 'excluded': sorted(set(ex + ex2))}
+            'rules': rules, 'run_w': draw(st.integers(0, 99)) < W_SHARE.get(tier, 100), 'excluded': sorted(set(ex_pre + ex + ex2))}
 
 
 def strategy(tier='quick'):
@@ -1179,17 +1183,31 @@ def evaluate(case):
             return fail('report_grid/W', 'WNTRSimulator reported times %s..., expected %d steps of %d s'
                         % (list(W.times[:6]), nexp, o['rep']), tags), diag
         known = w_law_violation(cx, W)
-        res = compare_w(cx, E1, W, n, T.all_times, T.tank_inflow, thr_ev)
+        if n_w < n:
+            tags.append('cut:w:fast_tank')
+        res = compare_w(cx, E1, W, n_w, T.all_times, T.tank_inflow, thr_ev)
         diag['w_vs_e1'] = res[-1]
         if res[0] == 'fail':
             _f, qty, cls, detail = res[:4]
             if known:
                 return fail('w_vs_e1/' + known[0], detail + '\n' + known[1], tags), diag
-            if pattern_off_grid(o) and res[4] > 0:
-                return fail('w_vs_e1/pattern_change_inside_hyd_step',
-                            detail + '\nhydraulic step %d s, pattern step %d s, pattern start %d s: a pattern period begins '
-                            'inside a hydraulic step; EPANET solves at that instant, WNTRSimulator keeps the old '
-                            'multipliers until the end of the step' % (o['hyd'], o['pat'], o['pattern_start']), tags), diag
+            if pattern_off_grid(o):
+                # did WNTRSimulator skip an instant at which a pattern period begins and EPANET solved?
+                t_fail = E1.times[res[4]]
+                starts = [ts for ts in T.all_times if 0 < ts <= t_fail and (ts + o['pattern_start']) % o['pat'] == 0
+                          and ts % o['hyd'] != 0]
+                wn_all = build_model(case)
+                wn_all.options.time.report_timestep = 'ALL'
+                wn_all.options.time.duration = int(t_fail)
+                run_all = S.run_wntr(wn_all, hw_approx=o['hw_approx'], tol=1e-8)
+                w_times = set(int(x) for x in run_all.times) if run_all.exception is None else set()
+                skipped = [ts for ts in starts if ts not in w_times]
+                if skipped:
+                    return fail('w_vs_e1/pattern_change_inside_hyd_step',
+                                detail + '\nhydraulic step %d s, pattern step %d s, pattern start %d s: a pattern period begins '
+                                'at t = %s inside a hydraulic step; EPANET solves at that instant, WNTRSimulator did not '
+                                '(it solved at %s)' % (o['hyd'], o['pat'], o['pattern_start'], skipped[:4], sorted(w_times)[:12]),
+                                tags), diag
             return fail('w_vs_e1/%s/%s' % (qty, cls), detail, tags), diag
         if res[0] == 'cut':
             tags.append('cut:w:' + res[1])
